@@ -406,6 +406,79 @@ fn run_inner(rep: &mut Rep) {
                         Err(p) => viol(rep, "prove_request:decode-panic", json!({"sig_len": sig_len, "panic": p.msg})),
                     }
                 }
+                // the instance's JSON views of a serialized witness equal the protocol functions' (and, for the
+                // big-integer form, the independently built value); typed construction from a tree proof
+                // (rln_witness_from_values) encodes to the same bytes as the independent encoder
+                for j in 0..12usize {
+                    rep.ev();
+                    let (_, w) = gen_witness(&mut rng, &grid, j * 7 + 1, 20);
+                    let enc = enc_witness(&w);
+                    rep.stratum("live|witness-json-views");
+                    match catch(|| (r.get_rln_witness_json(&enc).ok(), r.get_rln_witness_bigint_json(&enc).ok())) {
+                        Ok((Some(j1), Some(j2))) => {
+                            let typed = deserialize_witness(&enc).ok().map(|x| x.0);
+                            let want1 = typed.as_ref().and_then(|t| rln_witness_to_json(t).ok());
+                            if Some(&j1) != want1.as_ref() {
+                                viol(rep, "live:get_rln_witness_json:differs-from-protocol-function", json!({"witness": hex_short(&enc)}));
+                            }
+                            match rln_witness_from_json(j1.clone()) {
+                                Ok(back) if Some(&back) == typed.as_ref() => {}
+                                _ => viol(rep, "live:get_rln_witness_json:does-not-decode-to-the-witness", json!({"witness": hex_short(&enc)})),
+                            }
+                            if j2 != crate::noderef::rln_inputs_json(&w) {
+                                viol(rep, "live:get_rln_witness_bigint_json:mismatch", json!({"got": j2, "want": crate::noderef::rln_inputs_json(&w)}));
+                            }
+                        }
+                        Ok(_) => viol(rep, "live:witness-json-views:err-on-valid-witness", json!({"witness": hex_short(&enc)})),
+                        Err(p) => viol(rep, "live:witness-json-views:panic", json!({"panic": p.msg})),
+                    }
+                }
+                {
+                    use zerokit_utils::merkle_tree::{ZerokitMerkleProof, ZerokitMerkleTree};
+                    let depth = 6;
+                    if let Ok(Ok(mut t)) = catch(|| rln::poseidon_tree::PoseidonTree::default(depth)) {
+                        let mut m = crate::model::Model::new(depth, crate::trees::poseidon_h, Fr::from(0u64));
+                        for i in [0usize, 1, 5, 40, 63] {
+                            let v = rand_fr(&mut rng);
+                            if t.set(i, v).is_ok() {
+                                m.set(i, v);
+                            }
+                        }
+                        for i in [0usize, 1, 2, 5, 33, 40, 62, 63] {
+                            rep.ev();
+                            rep.stratum("typed|rln_witness_from_values");
+                            let (secret, x, ext) = (rand_fr(&mut rng), rand_fr(&mut rng), rand_fr(&mut rng));
+                            let (path, bits) = m.proof(i);
+                            let w = Witness { secret, limit: Fr::from(100u64), msg_id: Fr::from(i as u64), path, bits, x, ext };
+                            let got = catch(|| {
+                                let pr = t.proof(i).map_err(|e| e.to_string())?;
+                                let zw = rln_witness_from_values(secret, &pr, x, ext, Fr::from(100u64), Fr::from(i as u64)).map_err(|e| e.to_string())?;
+                                let _ = pr.length();
+                                serialize_witness(&zw).map_err(|e| e.to_string())
+                            });
+                            match got {
+                                Ok(Ok(b)) if b == enc_witness(&w) => {}
+                                Ok(Ok(b)) => viol(rep, "rln_witness_from_values:encoding-differs-from-independent-encoder", json!({"position": i, "zerokit": hex_short(&b), "independent": hex_short(&enc_witness(&w))})),
+                                Ok(Err(e)) => viol(rep, "rln_witness_from_values:err", json!({"position": i, "err": e})),
+                                Err(p) => viol(rep, "rln_witness_from_values:panic", json!({"panic": p.msg})),
+                            }
+                        }
+                    }
+                }
+                // decimal / hexadecimal text form of a field element
+                for j in 0..200usize {
+                    rep.ev();
+                    let (lab, v) = gen_fr(&mut rng, &grid, j);
+                    let b = fr_to_big(&v);
+                    let forms = [(b.to_str_radix(10), 10u32), (format!("\"{}\"", b.to_str_radix(10)), 10), (b.to_str_radix(16), 16), (format!("0x{}", b.to_str_radix(16)), 16), (format!("  {} ", b.to_str_radix(10)), 10)];
+                    for (txt, radix) in forms.iter() {
+                        match catch(|| rln::utils::str_to_fr(txt, *radix).ok()) {
+                            Ok(Some(got)) if got == v => {}
+                            _ => viol(rep, "str_to_fr:value", json!({"text": txt, "radix": radix, "case": lab})),
+                        }
+                    }
+                    rep.stratum(format!("str_to_fr|{}", j % 8));
+                }
                 for k in 0..50 {
                     rep.ev();
                     let mut out = vec![];
